@@ -108,11 +108,12 @@ def c10(tier, repo=None):
     if thorough:
         fixed = [("par2", dict(mg=2, multi=True)), ("seq", dict(mg=2)), ("nestdup", dict(mu=3, mo=3)), ("par3", dict(mu=4, mo=4)),
                  ("nest", dict(mu=3, mo=3)), ("nest", dict(mu=3, mo=3, md=1, multi=True)), ("nestdup", dict(mu=3, mo=3, md=1, multi=True)),
-                 ("sbr", dict(mg=2, mu=4, mo=4, md=2)), ("nsbr", dict(mg=2, mu=4, mo=4, md=2, multi=True))]
+                 ("sbr", dict(mg=2, mu=4, mo=4, md=2)), ("nsbr", dict(mg=2, mu=4, mo=4, md=2, multi=True)), ("tools", dict(mg=2, mu=4, mo=4, md=2))]
     else:
         fixed = [("par2", dict(mg=1)), ("seq", dict(mg=1)), ("nestdup", dict(mu=3, mo=3)), ("nest", dict(mu=2, mo=2, md=1, multi=True)),
-                 ("sbr", dict(mu=3, mo=3, md=1)), ("nsbr", dict(mu=3, mo=3, md=1, multi=True))]
+                 ("sbr", dict(mu=3, mo=3, md=1)), ("nsbr", dict(mu=3, mo=3, md=1, multi=True)), ("tools", dict(mg=2, mu=3, mo=3, md=1))]
     jobs = [(lambda s=s, kw=kw: cb.cb_model(s, fix=True, workers=1 if not thorough else 2, timeout=1500 if thorough else 170, **kw)) for s, kw in fixed]
+    jobs.append(lambda: cb.cb_model("tools", fix=True, norebind=True, workers=1, timeout=170, mg=2, mu=3, mo=3, md=1))
     jobs.append(lambda: cb.cb_model("sbr", fix=True, late=True, workers=1, timeout=170, mu=3, mo=3, md=1))
     jobs.append(lambda: cb.cb_model("par2", fix=False, workers=1, timeout=170, mg=1))
     runs = _par(jobs, 4 if not thorough else 2)
@@ -122,7 +123,11 @@ def c10(tier, repo=None):
     if late.timed_out or late.error != "invariant:RuleOK":
         raise Inconclusive("C10 model variant LateFlag (graph start compensated after an early return) should violate RuleOK: TLC reported %s\n%s" % (
             late.error, late.stdout[-1500:]))
-    for (s, kw), run in zip(fixed, runs[:-2]):
+    noreb = runs[-3]
+    if noreb.timed_out or noreb.error != "invariant:RuleOK":
+        raise Inconclusive("C10 model variant NoRebind (withRunInfo keeps the ToolsNode's run info) should violate RuleOK: TLC reported %s\n%s" % (
+            noreb.error, noreb.stdout[-1500:]))
+    for (s, kw), run in zip(fixed, runs[:-3]):
         vlib.tlc_must_pass(run, "C10 model (with repair) %s" % s)
         states += run.distinct
         trans += run.generated
@@ -131,6 +136,8 @@ def c10(tier, repo=None):
         log("  model Callbacks[%s, repaired]: RuleOK holds, %d distinct states, %d generated, depth %d, %.0fs" % (s, run.distinct, run.generated, run.depth, run.wall_s))
     model_runs.append({"model": "Callbacks/CopyFix+LateFlag (seeded variant: haveOnStart set behind the fresh-start block)", "shape": "sbr",
                        "distinct": late.distinct, "wall_s": round(late.wall_s, 1), "result": "RuleOK violated (start-twice), as it must be"})
+    model_runs.append({"model": "Callbacks/CopyFix+NoRebind (seeded variant: withRunInfo returns a manager without per-call handlers unchanged)", "shape": "tools",
+                       "distinct": noreb.distinct, "wall_s": round(noreb.wall_s, 1), "result": "RuleOK violated (tool-call events under the ToolsNode's run info), as it must be"})
     asis = runs[-1]
     if asis.timed_out or asis.error not in (None, "invariant:RuleOK"):
         raise Inconclusive("C10 model as coded: TLC reported %s\n%s" % (asis.error, asis.stdout[-2000:]))
@@ -144,7 +151,8 @@ def c10(tier, repo=None):
         gens = [("par2", dict(mg=2, mu=4, mo=4, md=2, multi=True), None, 4000), ("seq", dict(mg=1), None, 336),
                 ("nestdup", dict(mu=3, mo=3), None, 3000), ("nest", dict(mu=3, mo=3), "num=2500", 3000), ("par3", dict(mu=4, mo=4), "num=2500", 3000),
                 ("nest", dict(mu=3, mo=3, md=2, multi=True), "num=2000", 2500), ("nestdup", dict(mu=3, mo=3, md=2, multi=True), "num=1500", 2000),
-                ("sbr", dict(mg=2, mu=4, mo=4, md=2), None, 2000), ("nsbr", dict(mg=2, mu=4, mo=4, md=2, multi=True), None, 2500)]
+                ("sbr", dict(mg=2, mu=4, mo=4, md=2), None, 2000), ("nsbr", dict(mg=2, mu=4, mo=4, md=2, multi=True), None, 2500),
+                ("tools", dict(mg=2, mu=4, mo=4, md=2), None, 3000)]
     else:
         gens = [("par2", dict(mg=1, mu=3, mo=3, md=2), None, 550), ("par2", dict(mg=1, mu=2, mo=2, md=1, multi=True), None, 120),
                 ("seq", dict(mg=1, mu=3, mo=3), None, 60),
@@ -152,7 +160,9 @@ def c10(tier, repo=None):
                 # one option designated to SEVERAL paths, top-level and nested, in both orders
                 ("nest", dict(mu=2, mo=2, md=1, multi=True), "num=150", 250), ("nestdup", dict(mu=2, mo=2, md=1, multi=True), "num=100", 150),
                 # runs that end inside the START step (branch on START selects END / fails / interrupt-before), top-level and nested
-                ("sbr", dict(mu=2, mo=2, md=1), None, 220), ("nsbr", dict(mu=2, mo=2, md=1, multi=True), None, 260)]
+                ("sbr", dict(mu=2, mo=2, md=1), None, 220), ("nsbr", dict(mu=2, mo=2, md=1, multi=True), None, 260),
+                # a ToolsNode with two parallel tool calls (tool-call units); supply includes "global handlers only"
+                ("tools", dict(mg=2, mu=2, mo=2, md=1), None, 300)]
 
     def gen(shape, kw, sim, limit):
         cases, run = cb.cb_generate(shape, simulate=sim, depth=80 if sim else None, seed=vlib.SEED if sim else None,
